@@ -47,7 +47,8 @@ impl Verdicts {
         v
     }
     pub fn loc_answer(&self, locale: Option<&str>, key: &str) -> Result<String, ()> {
-        if self.loc_fail { Err(()) } else { Ok(format!("{key}|{}", locale.unwrap_or("<none>"))) }
+        // plain text with multi-byte characters (length prefixes count bytes, not characters)
+        if self.loc_fail { Err(()) } else { Ok(format!("{key}|{}|ünï✓", locale.unwrap_or("<none>"))) }
     }
 }
 
